@@ -28,6 +28,7 @@ namespace std {
   inline vsym::sym acos(const vsym::sym& x) { return vsym::acos(x); }
   inline vsym::sym asin(const vsym::sym& x) { return vsym::asin(x); }
   inline vsym::sym atan(const vsym::sym& x) { return vsym::atan(x); }
+  inline vsym::sym atan2(const vsym::sym& y, const vsym::sym& x) { return vsym::mk_uf("atan2", {y, x}); }
   inline vsym::sym cosh(const vsym::sym& x) { return vsym::cosh(x); }
   inline vsym::sym sinh(const vsym::sym& x) { return vsym::sinh(x); }
   inline vsym::sym tanh(const vsym::sym& x) { return vsym::tanh(x); }
